@@ -21,35 +21,36 @@ theorem C20_symbol_effects (reg : Registry) (heap : Heap) (ids : List Nat) (full
         (splitDots fullname)[k]? = some a ∧ reg.get (joinDots ((splitDots fullname).take k)) = some v :=
   symbolNeedsImport_effects reg heap ids fullname
 
-/-- **C20_effects.**  For every program, registry, builtins and caller namespaces, every effect logged by the whole
+/-- **C20_effects.**  For the unchanged code (`fx = {}`) and for the code carrying any of the proposed C05 repairs:
+    for every program, registry, builtins and caller namespaces, every effect logged by the whole
     analysis (`find_missing_imports` on source) is one of
     * `getattr(v, part)` with `v` identical to `sys.modules[pname]` for the dotted name `pname` it was reached under,
     * `bool(None)` (the truth test of `_NewScopeCtx` on the values of the scope it pops),
     * a dict write / delete in a private scope (heap id ≥ 3 + number of caller namespaces, or `_class_delayed`).
     There is no `==`, no `hash`, no import, no truth test of a caller's value. -/
-theorem C20_effects (reg : Registry) (builtins : Scope) (ns : List Scope) (prog : List Stmt) :
-    ∀ e ∈ (analyze reg builtins ns prog).log, EffectOK reg (3 + ns.length) e :=
-  (inv_analyze reg builtins ns prog).log
+theorem C20_effects (fx : Fixes) (reg : Registry) (builtins : Scope) (ns : List Scope) (prog : List Stmt) :
+    ∀ e ∈ (analyzeFx fx reg builtins ns prog).log, EffectOK reg (3 + ns.length) e :=
+  (inv_analyzeFx fx reg builtins ns prog).log
 
 /-- the same, spelled out constructor by constructor -/
-theorem C20_effects_cases (reg : Registry) (builtins : Scope) (ns : List Scope) (prog : List Stmt)
-    (e : Effect) (he : e ∈ (analyze reg builtins ns prog).log) :
+theorem C20_effects_cases (fx : Fixes) (reg : Registry) (builtins : Scope) (ns : List Scope) (prog : List Stmt)
+    (e : Effect) (he : e ∈ (analyzeFx fx reg builtins ns prog).log) :
     (∀ v, e ≠ .eq v) ∧ (∀ v, e ≠ .hash v) ∧ (∀ m, e ≠ .importMod m) ∧
     (∀ v, e = .truth v → v = .none) ∧
     (∀ v p a, e = .getattr v p a → reg.get p = some v) ∧
     (∀ i k, e = .nsWrite i k → i = delayedId ∨ 3 + ns.length ≤ i) ∧
     (∀ i k, e = .nsDel i k → 3 + ns.length ≤ i) := by
-  have h := C20_effects reg builtins ns prog e he
+  have h := C20_effects fx reg builtins ns prog e he
   cases e <;> simp_all [EffectOK]
 
 /-- **C20_readonly.**  After the analysis every caller namespace (heap cells 3 … 3+k-1), the builtins namespace
     (cell 0) and `_builtins2` (cell 1) are exactly what was passed in: all writes went to the private top scope
     pushed by `__init__`, to scopes created during the visit, or to `_class_delayed`. -/
-theorem C20_readonly (reg : Registry) (builtins : Scope) (ns : List Scope) (prog : List Stmt) :
-    (∀ i, i < ns.length → (analyze reg builtins ns prog).heap.get (3 + i) = ns.getD i {}) ∧
-    (analyze reg builtins ns prog).heap.get 0 = builtins ∧
-    (analyze reg builtins ns prog).heap.get 1 = { items := [("__file__".toList, Val.none)] } := by
-  have h := inv_analyze reg builtins ns prog
+theorem C20_readonly (fx : Fixes) (reg : Registry) (builtins : Scope) (ns : List Scope) (prog : List Stmt) :
+    (∀ i, i < ns.length → (analyzeFx fx reg builtins ns prog).heap.get (3 + i) = ns.getD i {}) ∧
+    (analyzeFx fx reg builtins ns prog).heap.get 0 = builtins ∧
+    (analyzeFx fx reg builtins ns prog).heap.get 1 = { items := [("__file__".toList, Val.none)] } := by
+  have h := inv_analyzeFx fx reg builtins ns prog
   refine ⟨?_, ?_, ?_⟩
   · intro i hi
     rw [h.user (3 + i) (by omega) (by unfold delayedId; omega)]
